@@ -5,6 +5,7 @@
 #include <sys/uio.h>
 
 #include "message.h"
+#include "queue.h"
 
 #include "event.h"
 
@@ -23,6 +24,21 @@
  * 
  * \return created input
  */
+static int streamRecv(MPT_STRUCT(stream) *srm)
+{
+	int ret;
+	
+	if ((ret = mpt_queue_recv(&srm->_rd)) != MPT_ERROR(MissingBuffer)) {
+		return ret;
+	}
+	/* complete data on full queue: decoder needs scratch space */
+	if ((mpt_stream_flags(&srm->_info) & (MPT_STREAMFLAG(ReadMap) | MPT_STREAMFLAG(WriteMap)))
+	    || !mpt_queue_prepare(&srm->_rd.data, 64)) {
+		return ret;
+	}
+	return mpt_queue_recv(&srm->_rd);
+}
+
 extern int mpt_stream_dispatch(MPT_STRUCT(stream) *srm, int (*cmd)(void *, const MPT_STRUCT(message) *), void *arg)
 {
 	struct iovec vec;
@@ -31,7 +47,7 @@ extern int mpt_stream_dispatch(MPT_STRUCT(stream) *srm, int (*cmd)(void *, const
 	
 	/* use existing or new message */
 	if (srm->_rd._state.data.msg < 0) {
-		if ((ret = mpt_queue_recv(&srm->_rd)) < 0) {
+		if ((ret = streamRecv(srm)) < 0) {
 			return ret;
 		}
 		if (!ret) {
@@ -54,7 +70,7 @@ extern int mpt_stream_dispatch(MPT_STRUCT(stream) *srm, int (*cmd)(void *, const
 		ret &= MPT_EVENTFLAG(Flags);
 	}
 	/* further message on queue */
-	if (mpt_queue_recv(&srm->_rd) > 0) {
+	if (streamRecv(srm) > 0) {
 		ret |= MPT_EVENTFLAG(Retry);
 	}
 	return ret;
